@@ -61,6 +61,57 @@ T = {
  "C19-4": ("a math function or zeros_like on a 0-dimensional operand", {"C19": 0}, {"C19": 1}, "API lambdas zerod/* (0-d operands)"),
 }
 
+T3 = {
+ "C01-5": ("a +, - or * between a uint32 operand and a signed integer operand with data whose exact result is negative or exceeds 32 bits",
+           {"C01": 0, "C03": 0}, {"C01": 1},
+           "integer wrap-around is abstracted by the term algebra (stated outside): per program the real kernel is now compiled (loopy C "
+           "target + gcc) and run on sample data as an encoding-validation side; program mixed_int_widths with extreme integers"),
+ "C01-6": ("an integer index in front of the first index array of a contiguous advanced group (x[1, idx])",
+           {"C01": 0, "C02": 1}, {"C01": 1, "C02": 1}, "corpus: adv_index outputs h/k/l, programs adv_index_long and adv_index_4d"),
+ "C02-5": ("a transpose by a permutation that is not its own inverse (>= 3 axes)", {"C02": 1, "C01": 1}, {"C02": 1, "C01": 1}, "none needed"),
+ "C02-6": ("a non-contiguous advanced index whose tuple starts with slices (x[:, i, :, j], >= 4 axes)",
+           {"C02": 0, "C01": 0}, {"C02": 1, "C01": 1},
+           "C02 now enumerates the whole family of index tuples over {array, full slice, int} up to length 3 (quick) / 4 (thorough); "
+           "the driver keeps searching after a counterexample that does not reproduce (here: all lengths 1); corpus adv_index_4d"),
+ "C03-5": ("matmul of two stacks of matrices of different rank (both >= 3-d)", {"C03": 0}, {"C03": 1}, "matmul shape harness for ranks (3,4) and (4,3)"),
+ "C03-6": ("concatenate with a zero-long piece whose dtype is wider than the promotion of the others", {"C03": 0}, {"C03": 1},
+           "dtype table rows concatenate_e1 / concatenate_e2 (a piece sliced to length 0)"),
+ "C04-5": ("two Stack/Concatenate nodes where one operand list is a proper prefix of the other", {"C04": 1}, {"C04": 1}, "none needed"),
+ "C04-6": ("an array that was hashed, then tagged/untagged, compared by hash with an equal array built another way", {"C04": 0}, {"C04": 1},
+           "side derived-after-hash: tagged / without_tags / with_tagged_axis / copy / replace of an already hashed object vs the same "
+           "derivation of a never-hashed twin and vs a pickle round trip"),
+ "C05-5": ("a CSRMatmul whose matrix arrays are rewritten by the transformation (duplicates inside elem_values, shared index buffer)",
+           {"C05": 0}, {"C05": 1}, "corpus program csr_computed (matrix parts computed / shared / wrapped twice); aliased inputs are one uninterpreted array"),
+ "C05-6": ("any transformation that rewrites an output of a DictOfNamedArrays (input object mutated)", {"C05": 1}, {"C05": 1}, "none needed"),
+ "C06-6": ("array // scalar on the distribution path of a distributed einsum", {"C06": 0, "C19": 1, "C14": 1}, {"C06": 1, "C19": 1, "C14": 1},
+           "C06 programs nonlinear_on_path_div/_pow/_sel (floor division, modulo, power, sqrt, abs, where on the path)"),
+ "C07-5": ("two index arrays in one subscript, one correctly tagged AssumeNonNegative, the other untagged with negative entries",
+           {"C07": 0}, {"C07": 1},
+           "C07 listed the assumption tag as outside: variant assume_nonneg tags exactly the index inputs a program declares non-negative "
+           "(program adv_index_nonneg); the algebra knows v % n == v for in-range reads of such inputs"),
+ "C07-6": ("materialize_with_mpms on a CSRMatmul whose elem_values contain a node that MPMS stores", {"C07": 0, "C05": 0}, {"C07": 1, "C05": 1},
+           "corpus program csr_computed"),
+ "C08-5": ("the same partition object executed twice", {"C08": 1}, {"C08": 1}, "none needed"),
+ "C08-6": ("a rank without any send/receive while other ranks communicate", {"C08": 0}, {"C08": 1}, "pattern silent_rank (3 ranks)"),
+ "C11-5": ("a transpose by a permutation that is not its own inverse, axes of unequal length", {"C11": 1, "C01": 1}, {"C11": 1, "C01": 1}, "none needed"),
+ "C11-6": ("a contiguous advanced group ending in an int, followed by a slice, index array longer than the sliced axis",
+           {"C11": 0, "C02": 1}, {"C11": 1, "C02": 1}, "corpus program adv_index_long (index arrays longer than the axes that follow)"),
+ "C12-5": ("a call site that already carries InlineCallTag before tag_all_calls_to_be_inlined, with an untagged call nested below it",
+           {"C12": 0}, {"C12": 1}, "call site pretagged_nested"),
+ "C12-6": ("a traced function that ignores one of its arguments", {"C12": 1}, {"C12": 1}, "none needed"),
+ "C14-5": ("a transpose by a permutation that is not its own inverse", {"C14": 1}, {"C14": 1}, "none needed"),
+ "C14-6": ("logical_and / logical_or with non-boolean operands (ints outside {0,1}, floats)", {"C14": 0}, {"C14": 1}, "corpus program logical_nonbool"),
+ "C16-5": ("a sign decision that only flips at size 0 (n - 1 >= 0; x[0] on an axis of length n)", {"C16": 0}, {"C16": 1},
+           "C16's z3 decision family only covered equality: it now also asks z3 about every True of _is_non_negative/_is_non_positive and "
+           "about every integer index accepted on a symbolic-length axis"),
+ "C16-6": ("a negative integer index on an axis of symbolic length n + c, basic indexing", {"C16": 0, "C11": 0}, {"C16": 1, "C11": 1},
+           "size-parameter program sym_int_index"),
+ "C19-5": ("a binary op between an array and a NumPy-typed scalar whose dtype is not the result dtype", {"C19": 0}, {"C19": 1}, "API lambdas npscalar/*"),
+ "C19-6": ("a hand-written partial reduction that shares one end with the axis", {"C19": 1}, {"C19": 1}, "none needed"),
+}
+OBSOLETE = {"C06-5": "exploited the defect repaired by /repo d5be0ba (astype raised as BroadcastOp); on the current tree the distributive "
+                     "law refuses graphs with astype on the path (UnknownIndexLambdaExpr), as on the pinned tree, so the change cannot manifest"}
+
 
 def files_changed(sd):
     out = []
@@ -72,26 +123,35 @@ def files_changed(sd):
 
 
 def main():
-    for sid, (needs, before, after, how) in T.items():
+    for sid, why in OBSOLETE.items():
         sd = os.path.join(root, sid)
-        meta = {
-            "id": sid, "breaks_property": sid.split("-")[0], "campaign": 2, "files_changed": files_changed(sd),
-            "needs_to_manifest": needs,
-            "author": "independent sub-agent given only the property text and a scratch worktree (see notes.md)",
-            "confirmed_by_us": {"command": f"bin/seedconfirm seeded/{sid}", "demo_on_original_exit": 0, "demo_with_patch_exit": 1,
-                                "baseline_suite_with_patch": "2 failed (the two always-failing tests), 80 passed"},
-            "checks_run": {"command": f"bin/seedrun seeded/{sid} quick " + " ".join(after),
-                           "before_strengthening": {c: {"caught": bool(v)} for c, v in before.items()},
-                           "after_strengthening": {c: {"caught": bool(v)} for c, v in after.items()}},
-            "strengthening": how,
-        }
-        json.dump(meta, open(os.path.join(sd, "meta.json"), "w"), indent=1)
+        json.dump({"id": sid, "breaks_property": sid.split("-")[0], "campaign": 3, "files_changed": files_changed(sd),
+                   "status": "obsolete", "why": why}, open(os.path.join(sd, "meta.json"), "w"), indent=1)
+    for camp, table in ((2, T), (3, T3)):
+        for sid, (needs, before, after, how) in table.items():
+            sd = os.path.join(root, sid)
+            meta = {
+                "id": sid, "breaks_property": sid.split("-")[0], "campaign": camp, "files_changed": files_changed(sd),
+                "needs_to_manifest": needs,
+                "author": "independent sub-agent given only the property text and a scratch worktree (see notes.md)",
+                "confirmed_by_us": {"command": f"bin/seedconfirm seeded/{sid}", "demo_on_original_exit": 0, "demo_with_patch_exit": 1,
+                                    "baseline_suite_with_patch": "2 failed (the two always-failing tests), 80 passed"},
+                "checks_run": {"command": f"bin/seedrun seeded/{sid} quick " + " ".join(after),
+                               "before_strengthening": {c: {"caught": bool(v)} for c, v in before.items()},
+                               "after_strengthening": {c: {"caught": bool(v)} for c, v in after.items()}},
+                "strengthening": how,
+            }
+            json.dump(meta, open(os.path.join(sd, "meta.json"), "w"), indent=1)
     rows = []
+    obsolete = []
     for sid in sorted(os.listdir(root)):
         mp = os.path.join(root, sid, "meta.json")
         if not os.path.exists(mp):
             continue
         m = json.load(open(mp))
+        if m.get("status") == "obsolete":
+            obsolete.append((sid, m["why"]))
+            continue
 
         def caught(d):
             r = [c for c, v in sorted(d.items()) if (v.get("caught") if "caught" in v else v.get("exit") == 1)]
@@ -100,17 +160,21 @@ def main():
                      caught(m["checks_run"]["after_strengthening"]), m.get("campaign", 1)))
     n1 = [r for r in rows if r[4] == 1]
     n2 = [r for r in rows if r[4] == 2]
+    n3 = [r for r in rows if r[4] == 3]
     with open(os.path.join(root, "README.md"), "w") as f:
         f.write("# Seeded changes\n\nEach directory holds one change to inducer/pytato written by an independent sub-agent that was "
                 "given only the text of one property and a scratch worktree (nothing from /verif): `patch.diff`, `demo.py` (passes on "
                 "the original, fails with the change), the agent's `notes.md`, and our `meta.json`.  Every change was confirmed by us "
                 "with `bin/seedconfirm` (demo passes on /repo's HEAD, fails with the patch; the baseline suite still passes with the "
                 "patch) and run against the checks with `bin/seedrun` (scratch worktree + `VERIF_REPO`; /repo is never modified).  "
-                "`-1`/`-2` are the first campaign, `-3`/`-4` the second (run against the checks as strengthened after the first).\n\n"
+                "`-1`/`-2` are the first campaign, `-3`/`-4` the second, `-5`/`-6` the third (each run against the checks as "
+                "strengthened after the previous one).\n\n"
                 "| seed | what it needs to manifest | caught before strengthening (quick tier) | caught now |\n|---|---|---|---|\n")
         for sid, needs, b, a, _ in rows:
             f.write(f"| {sid} | {needs} | {b} | {a} |\n")
-        for name, rs in (("First", n1), ("Second", n2)):
+        for sid, why in obsolete:
+            f.write(f"| {sid} | (obsolete: {why}) | | |\n")
+        for name, rs in (("First", n1), ("Second", n2), ("Third", n3)):
             own = sum(1 for r in rs if r[0].split("-")[0] in r[2].split(", "))
             anyc = sum(1 for r in rs if r[2] != "-")
             now = sum(1 for r in rs if r[0].split("-")[0] in r[3].split(", "))
